@@ -266,6 +266,12 @@ def run(chk):
     n = 400 if chk.tier == "quick" else 6000
     rc, out, err = vlib.harness_run("nms", ["gen", "--seed", chk.seed, "--n", n])
     cases = [parse_line(l) for l in out.split("\n") if l.startswith("case ")]
+    exhaustive = 0
+    if chk.tier == "thorough":
+        rc2, out2, err2 = vlib.harness_run("nms", ["exhaustive"])
+        ex = [parse_line(l) for l in out2.split("\n") if l.startswith("case ")]
+        exhaustive = len(ex)
+        cases += ex
     chk.log("implementation ran %d cases" % len(cases))
     if rc != 0 or not cases:
         chk.broken.append("harness run failed rc=%s: %s" % (rc, err[-1500:]))
@@ -339,6 +345,10 @@ def run(chk):
         "model_vs_impl_disagreements": len(disagreements),
         "model_loop_vs_rec_disagreements": len(loop_vs_rec),
         "property_oracle_failures": len(failures),
+        "exhaustive_small_scope_cases": exhaustive,
+        "exhaustive_small_scope": "thorough tier: every ordered list of length <= 3 over a pool of seven boxes (duplicate pair, nested pair, "
+                                  "pair overlapping by exactly 1/2, far box, rotated box, invalid box) x nms threshold {1/4, 1/2} x scores "
+                                  "{none, descending, ascending} x score threshold {None, 0.45}",
     })
     if loop_vs_rec:
         chk.broken.append("model: nms_loop and nms_rec differ on %d cases (contradicts theorem nms_loop_eq_rec)" % len(loop_vs_rec))
